@@ -427,34 +427,38 @@ class ProjectDir:
             p.write_text(text)
         self.doc = self.root / "doc"
 
-    def run(self, options, seed, stale=None, keep=(), timeout=300):
+    def run(self, options, seed, stale=None, keep=(), timeout=300, extra_args=(), out="doc"):
         """stale: None (output directory absent) | dict rel->bytes (put there beforehand) | "same" (whatever
-        the previous run of this project left, plus one extra file).
-        -> (rc, log, tree of doc/, {name: tree} for the other directories asked for)"""
+        the previous run of this project left, plus one extra file).  [out]: the output directory (below the
+        project directory) when the options / command line arguments move it.
+        -> (rc, log, tree of the output directory, {name: tree} for the other directories asked for)"""
+        doc = self.root / out
         if stale == "same":
-            if not self.doc.exists():
-                F.full_run_subprocess(self.root, options, env=run_env((int(seed) + 7) % 1000), timeout=timeout)
-            self.doc.mkdir(exist_ok=True)
-            (self.doc / "zz_left_over.html").write_text("left over from an earlier run")
-            (self.doc / "proc").mkdir(exist_ok=True)
-            (self.doc / "proc" / "zz_gone~2.html").write_text("page of a procedure that no longer exists")
+            if not doc.exists():
+                F.full_run_subprocess(self.root, options, extra_args=extra_args,
+                                      env=run_env((int(seed) + 7) % 1000), timeout=timeout)
+            doc.mkdir(exist_ok=True)
+            (doc / "zz_left_over.html").write_text("left over from an earlier run")
+            (doc / "proc").mkdir(exist_ok=True)
+            (doc / "proc" / "zz_gone~2.html").write_text("page of a procedure that no longer exists")
         else:
-            shutil.rmtree(self.doc, ignore_errors=True)
+            shutil.rmtree(doc, ignore_errors=True)
             if isinstance(stale, dict):
                 for rel, data in stale.items():
                     if rel.endswith("/"):
-                        (self.doc / rel).mkdir(parents=True, exist_ok=True)
+                        (doc / rel).mkdir(parents=True, exist_ok=True)
                         continue
-                    p = self.doc / rel
+                    p = doc / rel
                     p.parent.mkdir(parents=True, exist_ok=True)
                     p.write_bytes(data if isinstance(data, bytes) else data.encode())
         for name in keep:
             shutil.rmtree(self.root / name, ignore_errors=True)
         try:
-            rc, out = F.full_run_subprocess(self.root, options, env=run_env(seed), timeout=timeout)
+            rc, out_ = F.full_run_subprocess(self.root, options, extra_args=extra_args, env=run_env(seed),
+                                             timeout=timeout)
         except Exception as e:  # noqa  (timeout)
-            rc, out = 124, f"EXC:{type(e).__name__}"
-        return rc, out, read_tree(self.doc), {name: read_tree(self.root / name) for name in keep}
+            rc, out_ = 124, f"EXC:{type(e).__name__}"
+        return rc, out_, read_tree(doc), {name: read_tree(self.root / name) for name in keep}
 
 
 def subprocess_run(files, options, seed, stale=None, keep=(), timeout=300):
